@@ -363,6 +363,65 @@ def check_caller_arrays(chk, MX, pool):
             chk.count("caller-arrays-error=" + type(e).__name__)
 
 
+def alias_histories(chk, MX, pool):
+    """Model/Alias.v on the live object: histories of hand-overs of the caller's position arrays, in-place edits of those arrays and
+    queries; after every query the aircraft's position and the position the Earth-frame geometry in use was built for (recovered from the
+    stored control points) are compared with the model's run under copy semantics"""
+    rng = chk.rng
+    cases, descr = [], []
+    zl = lambda v: "[%s]%%Z" % "; ".join(str(int(x)) for x in v)
+    for k in range(chk.q(4, 24)):
+        ac = pool[k % len(pool)]
+        nh = 1 + (k % 2)
+        rnd_pos = lambda: [rng.randint(-500, 500), rng.randint(-500, 500), -rng.randint(100, 30000)]
+        heap0 = [rnd_pos() for _ in range(nh)]
+        p0 = rnd_pos()
+        events = []
+        if k == 0:
+            events = [("set", 0), ("write", 0, [0, 0, -30000]), ("set", 0), ("query",)]     # a simulation loop re-using its position array
+        elif k == 1:
+            events = [("set", 0), ("query",), ("write", 0, [5, 5, -5]), ("query",)]          # an edit without any call
+        else:
+            for _ in range(rng.randint(3, 7)):
+                r_ = rng.random()
+                events.append(("set", rng.randrange(nh)) if r_ < 0.35 else (("write", rng.randrange(nh), rnd_pos()) if r_ < 0.7 else ("query",)))
+            events.append(("query",))
+        sd = copy.deepcopy(SD)
+        sd["scene"]["atmosphere"]["rho"] = "standard"
+        arrays = [np.array(h_, dtype=float) for h_ in heap0]
+        outs = []
+        try:
+            sc = MX.Scene(copy.deepcopy(sd))
+            sc.add_aircraft("A", copy.deepcopy(ac), state={"velocity": 90.0, "alpha": 2.0, "position": [float(x) for x in p0]})
+            a = sc._airplanes["A"]
+            for e in events:
+                if e[0] == "set":
+                    sc.set_aircraft_state(state={"velocity": 90.0, "alpha": 2.0, "position": arrays[e[1]]}, aircraft="A")
+                elif e[0] == "write":
+                    arrays[e[1]][:] = e[2]
+                else:
+                    sc.solve_forces()
+                    built_for = np.array(sc._PC[0], dtype=float) - np.array(a.PC[0], dtype=float)      # (default attitude: no rotation)
+                    outs.append(([int(round(float(x))) for x in a.p_bar], [int(round(float(x))) for x in built_for]))
+        except Exception as e:
+            chk.count("alias-history-error=" + type(e).__name__)
+            continue
+        chk.case(dict(kind="alias-history", k=k, events=[e[0] for e in events]), nontrivial=True)
+        chk.count("op=alias-history")
+        evs = "[%s]" % "; ".join("SetState %d" % e[1] if e[0] == "set" else ("CallerWrites %d %s" % (e[1], zl(e[2])) if e[0] == "write" else "Query") for e in events)
+        exp = "[%s]" % "; ".join("(%s, %s)" % (zl(o[0]), zl(o[1])) for o in outs)
+        cases.append("outs_eqb (run true (init [%s] %s) %s) %s" % ("; ".join(zl(h_) for h_ in heap0), zl(p0), evs, exp))
+        descr.append(dict(kind="caller-arrays-history", scene=sd, aircraft=ac, heap=heap0, start=p0, events=events, observed=outs,
+                          what="position of the aircraft / position the geometry in use was built for, after each query, differ from Model/Alias.v under copy semantics"))
+    failing, nfiles, errors = common.run_cases("C07alias", ["From Coq Require Import ZArith List.", "From MuxV Require Import Model.Alias.", "Import ListNotations."],
+                                               ["Close Scope float_scope."], cases, chunk=50)
+    chk.cov["traces_validated_against_impl"] = chk.cov.get("traces_validated_against_impl", 0) + len(cases)
+    for e in errors:
+        chk.fail_obligation("correspondence:C07-alias-coqc", e)
+    for i in failing:
+        chk.violation("caller-arrays:history", descr[i])
+
+
 def run(chk):
     MX = common.setup_env()
     import machupX.helpers as H
@@ -447,8 +506,9 @@ def run(chk):
             cases.append(c)
             descr.append(dict(ops=ops, scene=sd))
     check_caller_arrays(chk, MX, pool)
+    alias_histories(chk, MX, pool)
     failing, nfiles, errors = common.run_cases("C07", IMPORTS, DEFS, cases, chunk=40)
-    chk.cov["traces_validated_against_impl"] = len(cases)
+    chk.cov["traces_validated_against_impl"] = chk.cov.get("traces_validated_against_impl", 0) + len(cases)
     chk.cov["correspondence_cases"] = len(cases)
     if errors:
         chk.fail_obligation("correspondence:C07(case files do not compile)", "\n".join(errors)[-3000:])
